@@ -212,6 +212,7 @@ func driveDecode(in []byte) int {
 
 var totalCurrent atomic.Value // string: what is running, for the watchdog
 var totalStarted atomic.Int64 // when the running driver started (the deadline is per driver)
+var totalExtra atomic.Int64   // nanoseconds added to the deadline for the size of the input (50 us per byte, as in the envelope)
 
 func measure(name string, f func() int) totalRes {
 	totalCurrent.Store(name)
@@ -243,6 +244,8 @@ func measure(name string, f func() int) totalRes {
 
 func runTotalCase(c *totalCase, light bool) totalObs {
 	in := c.input()
+	extra := int64(len(in)) * int64(50*time.Microsecond)
+	totalExtra.Store(extra)
 	o := totalObs{Idx: c.Idx, Len: len(in), Res: []totalRes{}}
 	add := func(r totalRes) {
 		// keep the observation small: only what is needed to judge
@@ -254,6 +257,7 @@ func runTotalCase(c *totalCase, light bool) totalObs {
 	if len(c.Progs) > 0 {
 		// the programs of one input are measured together (they are tiny); a panic names the program
 		var bad string
+		totalExtra.Store(extra * int64(len(c.Progs)))
 		r := measure("progs", func() int {
 			calls := 0
 			for _, p := range c.Progs {
@@ -267,6 +271,7 @@ func runTotalCase(c *totalCase, light bool) totalObs {
 			r.Driver = "prog:" + bad
 		}
 		r.N = len(c.Progs)
+		totalExtra.Store(extra)
 		add(r)
 	}
 	add(measure("decode", func() int { return driveDecode(in) }))
@@ -291,7 +296,7 @@ func totalWatchdog(deadline time.Duration, out *bufio.Writer, cur *atomic.Int64,
 		if idx == 0 {
 			continue
 		}
-		if time.Since(time.Unix(0, totalStarted.Load())) > deadline {
+		if time.Since(time.Unix(0, totalStarted.Load())) > deadline+time.Duration(totalExtra.Load()) {
 			name, _ := totalCurrent.Load().(string)
 			// the main goroutine may be writing: do not touch `out`; a dedicated line on stderr, then exit 3
 			fmt.Fprintf(os.Stderr, "\nHANG idx=%d driver=%s\n", idx, name)
